@@ -79,6 +79,8 @@ impl<T> ChannelInternal<T> {
     /// closing of the channel
     pub(crate) fn terminate_signals(&mut self) {
         for t in self.wait_list.iter() {
+            #[cfg(kanal_verif)]
+            crate::verif::access(crate::verif::acc::CLAIM, t.verif_addr());
             // Safety: it's safe to terminate owned signal once
             unsafe { t.terminate() }
         }
@@ -90,6 +92,10 @@ impl<T> ChannelInternal<T> {
     pub(crate) fn next_send(&mut self) -> Option<SignalTerminator<T>> {
         if self.recv_blocking {
             return None;
+        }
+        #[cfg(kanal_verif)]
+        if let Some(front) = self.wait_list.front() {
+            crate::verif::access(crate::verif::acc::CLAIM, front.verif_addr());
         }
         match self.wait_list.pop_front() {
             Some(sig) => Some(sig),
@@ -111,6 +117,10 @@ impl<T> ChannelInternal<T> {
     pub(crate) fn next_recv(&mut self) -> Option<SignalTerminator<T>> {
         if !self.recv_blocking {
             return None;
+        }
+        #[cfg(kanal_verif)]
+        if let Some(front) = self.wait_list.front() {
+            crate::verif::access(crate::verif::acc::CLAIM, front.verif_addr());
         }
         match self.wait_list.pop_front() {
             Some(sig) => Some(sig),
@@ -134,10 +144,14 @@ impl<T> ChannelInternal<T> {
             for (i, send) in self.wait_list.iter().enumerate() {
                 if send.eq(sig) {
                     self.wait_list.remove(i);
+                    #[cfg(kanal_verif)]
+                    crate::verif::access(crate::verif::acc::CANCEL_OK, sig as *const Signal<T> as usize);
                     return true;
                 }
             }
         }
+        #[cfg(kanal_verif)]
+        crate::verif::access(crate::verif::acc::CANCEL_FAIL, sig as *const Signal<T> as usize);
         false
     }
 
@@ -148,10 +162,14 @@ impl<T> ChannelInternal<T> {
             for (i, recv) in self.wait_list.iter().enumerate() {
                 if recv.eq(sig) {
                     self.wait_list.remove(i);
+                    #[cfg(kanal_verif)]
+                    crate::verif::access(crate::verif::acc::CANCEL_OK, sig as *const Signal<T> as usize);
                     return true;
                 }
             }
         }
+        #[cfg(kanal_verif)]
+        crate::verif::access(crate::verif::acc::CANCEL_FAIL, sig as *const Signal<T> as usize);
         false
     }
 
@@ -161,10 +179,14 @@ impl<T> ChannelInternal<T> {
         if !self.recv_blocking {
             for signal in self.wait_list.iter() {
                 if signal.eq(sig) {
+                    #[cfg(kanal_verif)]
+                    crate::verif::access(crate::verif::acc::STILL_LISTED, sig as *const Signal<T> as usize);
                     return true;
                 }
             }
         }
+        #[cfg(kanal_verif)]
+        crate::verif::access(crate::verif::acc::NOT_LISTED, sig as *const Signal<T> as usize);
         false
     }
 
@@ -174,10 +196,14 @@ impl<T> ChannelInternal<T> {
         if self.recv_blocking {
             for signal in self.wait_list.iter() {
                 if signal.eq(sig) {
+                    #[cfg(kanal_verif)]
+                    crate::verif::access(crate::verif::acc::STILL_LISTED, sig as *const Signal<T> as usize);
                     return true;
                 }
             }
         }
+        #[cfg(kanal_verif)]
+        crate::verif::access(crate::verif::acc::NOT_LISTED, sig as *const Signal<T> as usize);
         false
     }
 }
